@@ -1,6 +1,6 @@
 from __future__ import print_function
 import logging
-from ast import Name as AstName, Attribute, Call
+from ast import Name as AstName, Attribute, Call, List, Tuple, Dict, Set
 
 from .util import np
 from .compat import HAS_CONSTANTS
@@ -91,6 +91,14 @@ class EvalCtx(object):
             return RuntimeName('__none__', node.s)
         elif node_type is Constant:
             return RuntimeName('__none__', node.value)
+        elif node_type is List:
+            return RuntimeName('__none__', [])
+        elif node_type is Tuple:
+            return RuntimeName('__none__', ())
+        elif node_type is Dict:
+            return RuntimeName('__none__', {})
+        elif node_type is Set:
+            return RuntimeName('__none__', set())
         elif isinstance(node, Callable):
             return node
         else:
